@@ -223,7 +223,35 @@ const Prelude = `
 (declare-sort Box 0)
 (declare-sort Fn 0)
 (declare-const fn.nil Fn)
-(define-sort F64 () (_ FloatingPoint 11 53))
+; float64 is an abstract sort: comparisons are uninterpreted relations constrained by axioms that hold for IEEE 754 (every IEEE
+; model is a model of them, so what is proved here holds for the real type); arithmetic and conversions are uninterpreted.
+(declare-sort F64 0)
+(declare-fun f.lt (F64 F64) Bool)
+(declare-fun f.eq (F64 F64) Bool)
+(declare-fun f.isNaN (F64) Bool)
+(declare-fun f.isInf (F64) Bool)
+(define-fun f.leq ((a F64) (b F64)) Bool (or (f.lt a b) (f.eq a b)))
+(define-fun f.gt ((a F64) (b F64)) Bool (f.lt b a))
+(define-fun f.geq ((a F64) (b F64)) Bool (or (f.lt b a) (f.eq b a)))
+(declare-const f.zero F64)
+(declare-fun f.lit (Int) F64)
+(declare-fun f.neg (F64) F64)
+(declare-fun f.add (F64 F64) F64)
+(declare-fun f.sub (F64 F64) F64)
+(declare-fun f.mul (F64 F64) F64)
+(declare-fun f.div (F64 F64) F64)
+(declare-fun f.ofint (Int) F64)
+(assert (not (f.isNaN f.zero)))
+(assert (forall ((n Int)) (! (and (not (f.isNaN (f.lit n))) (not (f.isInf (f.lit n)))) :pattern ((f.lit n)))))
+(assert (forall ((a F64) (b F64)) (! (=> (f.lt a b) (and (not (f.isNaN a)) (not (f.isNaN b)) (not (f.lt b a)) (not (f.eq a b)))) :pattern ((f.lt a b)))))
+(assert (forall ((a F64) (b F64)) (! (=> (f.eq a b) (and (not (f.isNaN a)) (not (f.isNaN b)) (f.eq b a))) :pattern ((f.eq a b)))))
+(assert (forall ((a F64)) (! (= (f.eq a a) (not (f.isNaN a))) :pattern ((f.eq a a)) :pattern ((f.isNaN a)))))
+(assert (forall ((a F64) (b F64)) (! (=> (and (not (f.isNaN a)) (not (f.isNaN b))) (or (f.lt a b) (f.eq a b) (f.lt b a))) :pattern ((f.lt a b)) :pattern ((f.eq a b)))))
+(assert (forall ((a F64) (b F64) (c F64)) (! (=> (and (f.lt a b) (f.lt b c)) (f.lt a c)) :pattern ((f.lt a b) (f.lt b c)))))
+(assert (forall ((a F64) (b F64) (c F64)) (! (=> (and (f.lt a b) (f.eq b c)) (f.lt a c)) :pattern ((f.lt a b) (f.eq b c)))))
+(assert (forall ((a F64) (b F64) (c F64)) (! (=> (and (f.eq a b) (f.lt b c)) (f.lt a c)) :pattern ((f.eq a b) (f.lt b c)))))
+(assert (forall ((a F64) (b F64) (c F64)) (! (=> (and (f.eq a b) (f.eq b c)) (f.eq a c)) :pattern ((f.eq a b) (f.eq b c)))))
+(assert (forall ((a F64)) (! (=> (f.isInf a) (not (f.isNaN a))) :pattern ((f.isInf a)))))
 (declare-datatypes ((Slice 0)) (((mk-slice (s-arr Ref) (s-off Int) (s-len Int) (s-cap Int)))))
 (declare-datatypes ((Iface 0)) (((mk-iface (i-typ Int) (i-box Box)))))
 (declare-const box.nil Box)
@@ -689,15 +717,15 @@ func groundInstances(a string, terms []string, ctx []string, budget *int) []stri
 				}
 				ints = append(ints, t)
 				if strings.HasPrefix(t, "|sk!") {
-					ints = append(ints, "(+ "+t+" 1)") // shifted positions (element removal / insertion)
+					ints = append(ints, "(+ "+t+" 1)", "(- "+t+" 1)") // shifted positions (element removal / insertion)
 				}
-				if len(ints) >= 6 {
+				if len(ints) >= 9 {
 					break
 				}
 			}
 			// loop counters and other short index terms of the code (the usual second component)
 			for _, t := range ctx {
-				if len(ints) >= 10 {
+				if len(ints) >= 12 {
 					break
 				}
 				ints = append(ints, t)
